@@ -575,6 +575,9 @@ class NumInterp(Interp):
                     else:
                         args.append(self.ev(a))
                 kw = {k.arg: self.ev(k.value) for k in n.keywords if k.arg and k.arg != 'dtype'}
+                for k in n.keywords:
+                    if k.arg is None:
+                        kw.update(dict(self.ev(k.value)))
                 return f(*args, **kw)
         if isinstance(n, ast.Subscript):
             v = self.ev(n.value)
